@@ -51,6 +51,14 @@ Definition bitlen (x : Z) : Z := if x <=? 0 then 0 else Z.log2 x + 1.
 
 Definition len {A} (s : list A) : Z := Z.of_nat (length s).
 
+(* int arithmetic: the value of an int expression after wrapping to 64 bits *)
+Definition wrap64 (x : Z) : Z := s64 (u64 x).
+(* make([]byte, hl, hl+(e+5)/6) with the capacity computed in int arithmetic: the runtime panics
+   (makeslice: cap out of range) when the capacity is below the length.  The allocation limit of
+   the runtime (maxAlloc, out of memory) is not modelled. *)
+Definition mk_cap (hl e : Z) : res unit :=
+  if wrap64 (hl + Z.quot (wrap64 (e + 5)) 6) <? hl then Panic else Ok tt.
+
 (* s[i] *)
 Definition at_ {A} (s : list A) (i : Z) : res A :=
   if i <? 0 then Panic else
@@ -119,6 +127,7 @@ Definition graph6_encode (g : graph) : res (list Z) :=
   let n := Z.of_nat (gn g) in
   if n <=? 1 then Ok [n + 63] else
   do hdr <- enc_size n;
+  do u <- mk_cap (len hdr) (Z.quot (wrap64 (n * (n - 1))) 2);
   let w := fold_left (fun w i => fold_left (fun w j => bw_put false w (gadj g i j)) (seq 0 i) w)
                      (seq 1 (gn g - 1)) bw0 in
   let s := if (bw_pos w =? 0)%nat then bw_s w else badd (bw_b w) 63 :: bw_s w in
@@ -221,6 +230,7 @@ Definition sparse6_encode (g : graph) : res (list Z) :=
   let k := Z.to_nat (bitlen (u64 (n - 1))) in
   if n <=? 1 then Ok [58; byte_of (n + 63)] else
   do hdr <- enc_size n;
+  do u <- mk_cap (1 + len hdr) (wrap64 (wrap64 ((Z.of_nat k + 1) * 2) * gm g));
   let '(v, w) := fold_left (fun st i => s6_row k st i (neighbours g i)) (seq 1 (gn g - 1)) (O, bw0) in
   if (bw_pos w =? 0)%nat then Ok (58 :: hdr ++ rev (bw_s w)) else
   do pos <-
